@@ -1,4 +1,4 @@
-import FimVerif.Proofs.Lemmas.TopoAtomic
+import FimVerif.Proofs.Lemmas.TopoAtomicSvc
 /-!
 # C09 — a topology-building call that raises leaves the model unchanged
 
@@ -61,11 +61,6 @@ theorem atomic_rename (cls : Cls) (nid : Nid) (n : String) : Atomic (rename cls 
   refine Atomic.bind_readOnly (by ro) (fun _ => ?_)
   exact (total_modify _).atomic
 
-/-- `Topology.remove_link` -/
-theorem atomic_removeLink (name : String) : Atomic (removeLink name) := by
-  unfold removeLink
-  exact Atomic.bind_readOnly (by ro) (fun _ => atomic_deleteNode _)
-
 /-- an interface created without a parent (`add_interface_sliver(parent_node_id=None)`) -/
 theorem atomic_ifaceNew_orphan (fl : Flavour) (c : Nat) (name : String) (nid : Option Nid) (t : Option String)
     (props : List PropArg) : Atomic (ifaceNew fl c name nid none t props) := by
@@ -77,5 +72,187 @@ theorem atomic_ifaceNew_orphan (fl : Flavour) (c : Nat) (name : String) (nid : O
   refine Atomic.bind_readOnly (by ro) (fun _ => ?_)
   refine Atomic.bind_total (Topo.atomic_addGNode _) (fun _ => ?_)
   exact total_pure _
+
+
+/-! ## calls that write more than once -/
+
+/-- `Interface(..., etype=NEW)` under a parent: the parent is looked up before the ConnectionPoint is created
+(commit 28b8d37), so nothing is left behind when it is gone -/
+theorem atomic_ifaceNew (fl : Flavour) (c : Nat) (name : String) (nid : Option Nid) (p : Nid) (t : Option String)
+    (props : List PropArg) : Atomic (ifaceNew fl c name nid (some p) t props) := by
+  constructor; intro s hf
+  rcases ifaceNew_cases fl c name nid p t props s with ⟨e, he⟩ | ⟨pn, n, _, _, _, _, _, _, _, hres⟩
+  · rw [he]
+  · rw [hres] at hf; simp at hf
+
+/-- `NetworkService.add_interface`, for any handle cache and any state (a removed service included) -/
+theorem atomic_addInterface (fl : Flavour) (c : Nat) (svc : Nid) (cache : Cache) (name : String) (nid : Option Nid)
+    (t : Option String) (props : List PropArg) : Atomic (nsAddInterface fl c svc cache name nid t props) := by
+  unfold nsAddInterface
+  exact Atomic.bind_readOnly (by ro) (fun _ => atomic_ifaceNew ..)
+
+/-- `Link(..., etype=NEW)`: a bad k-th interface (not an Interface, stale, not a ConnectionPoint) is found before the
+Link node is created (commit 28b8d37).  Needs distinct node ids. -/
+theorem atomic_linkNew (fl : Flavour) (c : Nat) (name : String) (nid : Option Nid) (lt : Option String)
+    (ifs : Option (List IfArg)) (tech : Option String) (props : List PropArg) (s : Topo) (hd : IdsDistinct s)
+    (hf : failed (linkNew fl c name nid lt ifs tech props s)) : (linkNew fl c name nid lt ifs tech props s).2 = s := by
+  cases ifs with
+  | none =>
+    unfold linkNew at hf ⊢
+    revert hf
+    refine ro_step (Q := fun r => failed r → r.2 = s) (by ro) (fun _ _ => rfl) (fun _ _ => ?_)
+    rcases hp : pick nid c with ⟨id, c'⟩
+    simp only []
+    refine ro_step (Q := fun r => failed r → r.2 = s) (by ro) (fun _ _ => rfl) (fun _ _ => ?_)
+    refine ro_step (Q := fun r => failed r → r.2 = s) (by ro) (fun _ _ => rfl) (fun a ha => ?_)
+    simp [need] at ha
+  | some l =>
+    rcases linkNew_cases fl c name nid lt l tech props s hd with ⟨e, he⟩ | ⟨ln, _, _, _, _, hres⟩
+    · rw [he]
+    · rw [hres] at hf; simp at hf
+
+/-- `Topology.add_link` -/
+theorem atomic_addLink (fl : Flavour) (c : Nat) (name : String) (nid : Option Nid) (lt : Option String)
+    (ifs : Option (List IfArg)) (tech : Option String) (props : List PropArg) (s : Topo) (hd : IdsDistinct s)
+    (hf : failed (addLink fl c name nid lt ifs tech props s)) : (addLink fl c name nid lt ifs tech props s).2 = s := by
+  unfold addLink at hf ⊢
+  revert hf
+  refine ro_step (Q := fun r => failed r → r.2 = s) (by ro) (fun _ _ => rfl) (fun _ _ => ?_)
+  refine ro_step (Q := fun r => failed r → r.2 = s) (by ro) (fun _ _ => rfl) (fun _ _ => ?_)
+  exact atomic_linkNew fl c name nid lt ifs tech props s hd
+
+/-- `NetworkService.connect_interface` on a state with distinct ids and no dangling edge, when the handle refers
+to a ConnectionPoint, the two uuids drawn are new and the derived link name is valid whenever the port name is -/
+theorem atomic_connectInterface (fl : Flavour) (c : Nat) (svc iid : Nid) (iname : String) (cache : Cache) (s : Topo)
+    (hd : IdsDistinct s) (hc : Closed s) (hcp : ∀ n ∈ s.nodes, n.nid = iid → n.cls = .connectionPoint)
+    (hfr : ∀ m ∈ s.nodes, m.nid ≠ .gen c ∧ m.nid ≠ .gen (c + 1)) (hnm : NameHyp s iname)
+    (hf : failed (connectInterface fl c svc cache (.iface iid iname) s)) :
+    (connectInterface fl c svc cache (.iface iid iname) s).2 = s := by
+  rcases connect_spec fl c svc iid iname cache s hd hc hcp hfr hnm with ⟨e, he⟩ | ⟨_, _, _, _, _, _, _, _, _, _, _, _, _, _, _, hres⟩
+  · rw [he]
+  · rw [hres] at hf; simp at hf
+
+/-- a non-Interface object is rejected by the `isinstance` assertion before anything is written -/
+theorem atomic_connectInterface_bogus (fl : Flavour) (c : Nat) (svc : Nid) (cache : Cache) :
+    Atomic (connectInterface fl c svc cache .bogus) := by
+  unfold connectInterface; exact (readOnly_raise _).atomic
+
+
+/-! ## service creation with the rollback handler (any exception kind, commit 34d4dbd)
+
+Full statement: for every interface list.  Proved here for lists of at most one element (`IfsOk`): whatever the
+interface makes the constructor raise - not an Interface, a stale handle, already connected, no owner, shared port on
+L2PTP, an invalid derived name - the handler's `remove_ns_with_cps_and_links` puts the model back exactly.
+NOT finished: the induction over longer lists (the handler then also disconnects the interfaces connected so far;
+the lemma "disconnecting the oldest connected interface removes exactly its ServicePort and Link" is missing). -/
+
+theorem atomic_addNetworkService_le1 (fl : Flavour) (c : Nat) (a : SvcArgs) (s : Topo)
+    (hd : IdsDistinct s) (hc : Closed s) (hfresh : ∀ m ∈ s.nodes, ∀ k, c ≤ k → m.nid ≠ .gen k)
+    (hnid : ∀ k, c ≤ k → a.nid ≠ some (.gen k)) (hifs : IfsOk s (pick a.nid c).1 a.ifs)
+    (hf : failed (addService fl c a s)) : (addService fl c a s).2 = s :=
+  svcNew_atomic_le1 fl c none a s hd hc hfresh hnid (fun _ h => by cases h) hifs hf
+
+theorem atomic_nodeAddService_le1 (fl : Flavour) (c : Nat) (parent : Nid) (a : SvcArgs) (s : Topo)
+    (hd : IdsDistinct s) (hc : Closed s) (hfresh : ∀ m ∈ s.nodes, ∀ k, c ≤ k → m.nid ≠ .gen k)
+    (hnid : ∀ k, c ≤ k → a.nid ≠ some (.gen k)) (hifs : IfsOk s (pick a.nid c).1 a.ifs)
+    (hf : failed (nodeAddService fl c parent a s)) : (nodeAddService fl c parent a s).2 = s := by
+  unfold nodeAddService at hf ⊢
+  revert hf
+  unfold childrenOf
+  refine ro_step (Q := FS s) (by ro) FS.err (fun nss hn => ?_)
+  refine ro_step (Q := FS s) (by ro) FS.err (fun _ _ => ?_)
+  obtain ⟨pn, t1, hpn, _⟩ := bind_ok_inv hn
+  have h2 := ro_run (readOnly_findNode _) hpn
+  rw [h2] at hpn
+  exact svcNew_atomic_le1 fl c (some parent) a s hd hc hfresh hnid (fun p h => by cases h; exact ⟨pn, hpn⟩) hifs
+
+/-- non-vacuity: a one-node model and a service with one bogus interface satisfy the hypotheses -/
+example : IdsDistinct ⟨[⟨.networkNode, .user "n1", "n1", "VM", []⟩], []⟩ ∧ Closed ⟨[⟨.networkNode, .user "n1", "n1", "VM", []⟩], []⟩ ∧
+    IfsOk ⟨[⟨.networkNode, .user "n1", "n1", "VM", []⟩], []⟩ (.gen 0) [.bogus] := ⟨by decide, by decide, trivial⟩
+
+
+/-! ## one theorem over the op alphabet
+
+`Covered op s` is the explicit guard: the calls whose atomicity is proved, with the hypotheses on the state and the
+arguments each proof uses.  The calls it excludes are the ones for which the full statement is open or false:
+`addComponent`/`addStorage` (false for caller-supplied colliding ids - known finding, see `addComponent_counterexample`),
+service creation with two or more interfaces (induction unfinished), the composites `addFacility`/`addSwitch`,
+`disconnect` and all removals. -/
+
+def FreshArgs (c : Nat) (s : Topo) (nid : Option Nid) : Prop :=
+  (∀ m ∈ s.nodes, ∀ k, c ≤ k → m.nid ≠ .gen k) ∧ (∀ k, c ≤ k → nid ≠ some (.gen k))
+
+def Covered : TopoOp → Topo → Prop
+  | .addNode _ _ _, _ => True
+  | .setProps _ _, _ => True
+  | .unsetProp _ _, _ => True
+  | .rename _ _ _, _ => True
+  | .nsAddInterface _ _ _ _ _ _ _ _, _ => True
+  | .addLink _ _ _ _ _ _ _ _, s => IdsDistinct s
+  | .connect _ _ _ _ .bogus, _ => True
+  | .connect _ c _ _ (.iface iid iname), s =>
+      IdsDistinct s ∧ Closed s ∧ (∀ n ∈ s.nodes, n.nid = iid → n.cls = .connectionPoint) ∧
+      (∀ m ∈ s.nodes, m.nid ≠ .gen c ∧ m.nid ≠ .gen (c + 1)) ∧ NameHyp s iname
+  | .addService _ c a, s => IdsDistinct s ∧ Closed s ∧ FreshArgs c s a.nid ∧ IfsOk s (pick a.nid c).1 a.ifs
+  | .nodeAddService _ c _ a, s => IdsDistinct s ∧ Closed s ∧ FreshArgs c s a.nid ∧ IfsOk s (pick a.nid c).1 a.ifs
+  | _, _ => False
+
+theorem fs_of_atomic {α : Type} {m : M Topo α} (h : Atomic m) (s : Topo) : FS s (m s) := h.h s
+
+/-- for every call of the alphabet that the guard admits and every state: a raise leaves the model unchanged -/
+theorem atomic_op (op : TopoOp) (s : Topo) (hcov : Covered op s) (hf : failed (step op s)) : (step op s).2 = s := by
+  revert hf
+  cases op with
+  | addNode fl c a => exact FS_bind_pure (fs_of_atomic (atomic_addNode fl c a) s)
+  | setProps i p => exact FS_bind_pure (fs_of_atomic (atomic_setProps i p) s)
+  | unsetProp i g => exact FS_bind_pure (fs_of_atomic (atomic_unsetProp i g) s)
+  | rename c i n => exact FS_bind_pure (fs_of_atomic (atomic_rename c i n) s)
+  | nsAddInterface fl c svc ca n i t p => exact FS_bind_pure (fs_of_atomic (atomic_addInterface fl c svc ca n i t p) s)
+  | addLink fl c n i lt ifs t p => exact FS_bind_pure (atomic_addLink fl c n i lt ifs t p s hcov)
+  | connect fl c svc ca i =>
+    cases i with
+    | bogus => exact FS_bind_pure (fs_of_atomic (atomic_connectInterface_bogus fl c svc ca) s)
+    | iface iid iname =>
+      obtain ⟨h1, h2, h3, h4, h5⟩ := hcov
+      exact FS_bind_pure (atomic_connectInterface fl c svc iid iname ca s h1 h2 h3 h4 h5)
+  | addService fl c a =>
+    obtain ⟨h1, h2, ⟨h3, h4⟩, h5⟩ := hcov
+    exact FS_bind_pure (atomic_addNetworkService_le1 fl c a s h1 h2 h3 h4 h5)
+  | nodeAddService fl c p a =>
+    obtain ⟨h1, h2, ⟨h3, h4⟩, h5⟩ := hcov
+    exact FS_bind_pure (atomic_nodeAddService_le1 fl c p a s h1 h2 h3 h4 h5)
+  | addComponent _ _ _ _ => exact hcov.elim
+  | addStorage _ _ _ _ _ _ => exact hcov.elim
+  | nsRemoveInterface _ _ _ => exact hcov.elim
+  | disconnect _ _ => exact hcov.elim
+  | addFacility _ _ _ _ _ _ _ _ _ => exact hcov.elim
+  | addSwitch _ _ _ _ _ _ _ _ => exact hcov.elim
+  | removeNode _ => exact hcov.elim
+  | removeFacility _ => exact hcov.elim
+  | removeSwitch _ => exact hcov.elim
+  | removeLink _ => exact hcov.elim
+  | removeService _ => exact hcov.elim
+  | nodeRemoveService _ _ => exact hcov.elim
+  | removeComponent _ _ => exact hcov.elim
+
+/-- non-vacuity of the guard: connecting an interface of a small well-formed model is covered -/
+example : Covered (.addLink .experiment 0 "l1" none (some "Patch") (some [.iface (.user "i1") "i1"]) none [])
+    ⟨[⟨.connectionPoint, .user "i1", "i1", "TrunkPort", []⟩], []⟩ := by
+  show IdsDistinct _; decide
+
+
+/-! ## the known finding behind the exclusion of `addComponent`
+
+Substrate `add_component` with caller-supplied interface ids of which the second is already in the graph: the call
+raises (`query`) after the Component, its NetworkService and the first interface were created. -/
+
+def cexState : Topo :=
+  ⟨[⟨.networkNode, .user "n1", "n1", "Server", []⟩, ⟨.connectionPoint, .user "x1", "old", "TrunkPort", []⟩], []⟩
+def cexOp : TopoOp :=
+  .addComponent .substrate 0 (.user "n1")
+    ⟨"nic", some (.user "c1"), some "SmartNIC", some "ConnectX-6", some (.user "ns1"), some [.user "i1", .user "x1"], some 2, []⟩
+
+theorem addComponent_counterexample :
+    failed (step cexOp cexState) ∧ (step cexOp cexState).2 ≠ cexState ∧ (step cexOp cexState).2.nodes.length = 5 := by decide
 
 end FimVerif.C09
